@@ -215,6 +215,72 @@ def _ftp_processor_faults(where_i, err_i, url_i, lt, preserve=False, nth=1):
     return item.is_processed
 
 
+# ---------------------------------------------------------------- FTP processor: symlink entries of a listing (--retr-symlinks=off)
+_LINKS = [('lnk', 'target'), ('lnk', 'other'), ('a/b', 'x'), ('../up', 'x'), ('/abs', 'x'), ('nodest', None), ('', 'x'), ('.', 'x'), ('..', 'x'),
+          ('ok2', '../../etc/passwd'), ('sp ace', 'x'), ('nul\x00', 'x')]
+
+
+class _PathWriterSession:
+    def process_request(self, request):
+        return request
+
+    def process_response(self, response):
+        return response
+
+    def save_document(self, response):
+        return '/dl/example.com/dir/.listing'
+
+    def discard_document(self, response):
+        pass
+
+    def extra_resource_path(self, suffix):
+        return '/dl/example.com/dir/' + suffix
+
+
+class _PathWriter:
+    def session(self):
+        return _PathWriterSession()
+
+
+def _ftp_symlinks(l1, l2):
+    """A directory listing with two symlink entries whose names / targets are hostile, symlinks preserved (--retr-symlinks=off)."""
+    from wpull.pipeline.item import LinkType
+    from wpull.protocol.ftp.ls.listing import FileEntry
+    import wpull.processor.ftp as PF
+    import os as _os
+    e1, e2 = pick(_LINKS, l1), pick(_LINKS, l2)
+    made = []
+
+    def symlink(target, path):
+        # os.symlink as far as it matters here: type check, embedded NUL, existing name, missing parent directory
+        if not isinstance(target, str) or not isinstance(path, str):
+            raise TypeError('expected str, bytes or os.PathLike object')
+        if '\x00' in path or '\x00' in target:
+            raise ValueError('embedded null byte')
+        if path in made:
+            raise FileExistsError(17, 'File exists', path)
+        if _os.path.dirname(path) not in ('/dl/example.com/dir', '/dl/example.com', '/dl', '/'):
+            raise FileNotFoundError(2, 'No such file or directory', path)
+        made.append(path)
+    with nosym():
+        client = stubs.StubFTPClient(files=[FileEntry(e1[0], 'symlink', dest=e1[1]), FileEntry('plain', 'file'), FileEntry(e2[0], 'symlink', dest=e2[1])])
+        env = stubs.build_ftp(client, filters=[F.SchemeFilter()], retr_symlinks=False)
+        env.factory['FileWriter'] = _PathWriter()
+        PF.os = types.SimpleNamespace(chmod=lambda path, mode: None, symlink=symlink, path=_os.path)
+        env.table.add('ftp://example.com/dir/')
+        rec = env.table.check_out(Status.todo)
+        rec.link_type = LinkType.directory
+        item = ItemSession(env.app, rec)
+    run(env.proc.process(item))
+    hit('processed')
+    for path in made:
+        if _os.path.dirname(path) != '/dl/example.com/dir' or _os.path.basename(path) in ('', '.', '..'):
+            return False                                # a link created outside the directory the listing is saved in
+    if made:
+        hit('linked')
+    return item.is_processed
+
+
 # ---------------------------------------------------------------- robots.txt content, scrapers
 _DOCS = [b'', b'User-agent: *\nDisallow: /', b'\xff\xfe\x00', b'User-agent\n:\n\n\n', b'Disallow: /\x00', b'url(', b'url()', b'@import "a";', b'@import url(\x00);',
          b'body{background:url( "http://[" )}', b'"http://example.com/\\u', b'var a = "\\ud800.html";', b'x = "http://h/a.html"; y = \'/b/\\x\';', b'\x80\x81 url(a)',
@@ -374,6 +440,12 @@ HARNESSES = [
              'wpull/scraper/base.py:DemuxDocumentScraper.scrape_info', 'wpull/document/util.py:detect_response_encoding'],
       doc='18 hostile robots.txt / CSS / JavaScript documents x 12 declared charsets (incl. utf-16, an unknown codec and non-text codecs such as hex / zlib / base64) through robots.txt '
           'loading, CSSScraper, JavaScriptScraper and the demultiplexing scraper: success or a per-URL error kind'),
+    H('ftp_symlinks', '_ftp_symlinks', 'l1: int, l2: int', pre=['0 <= l1 < %d and 0 <= l2 < %d' % (len(_LINKS), len(_LINKS))],
+      timeout={'quick': 250, 'thorough': 600}, samples=[(0, 9), (0, 1), (5, 2)], need=['processed', 'linked'],
+      funcs=['wpull/processor/ftp.py:FTPProcessorSession._add_listing_links', 'wpull/processor/ftp.py:FTPProcessorSession._make_symlink'],
+      doc='--retr-symlinks=off: every pair from 12 symlink entries of a listing (duplicate names, names with / or .., absolute, empty, '
+          'no target, NUL) over a model of os.symlink: the processor returns normally and every link created lies directly in the '
+          'directory of the listing'),
     H('last_modified', '_last_modified', 'tok_i: int', pre=['0 <= tok_i < %d' % len(_LM)], timeout={'quick': 120, 'thorough': 300},
       samples=[(0,), (1,)], need=['set', 'ignored'], funcs=['wpull/writer.py:BaseFileWriterSession.set_timestamp'],
       doc='20 Last-Modified values (garbage, empty, impossible fields, years 0 / 1000 / 99999 / beyond time_t, obsolete formats, NUL) '
